@@ -11,6 +11,12 @@ mod canonization;
 mod hctl_operators_eval;
 mod low_level_operations;
 
+#[cfg(feature = "verif-hooks")]
+pub use canonization::{
+    get_canonical as verif_get_canonical,
+    get_canonical_and_renaming as verif_get_canonical_and_renaming,
+};
+
 /// Shorthand for mapping of free variables to (optional) labels of their domain.
 pub type VarDomainMap = BTreeMap<String, Option<String>>;
 
